@@ -98,20 +98,21 @@ theorem C05_count (v : Bool) (m : Nat) (segs : List Seg) (drops : List (Option (
     (mergeSegs v m segs drops).1.numDocs = Spec.survivorCount (segs.map (·.numDocs)) drops := by
   rw [mergeSegs_numDocs, newDocCount_eq segs drops hrange]
 
-theorem C05_maps (v : Bool) (m : Nat) (segs : List Seg) (drops : List (Option (List Nat)))
-    (hne : newDocCount segs drops ≠ 0) :
+theorem C05_maps (v : Bool) (m : Nat) (segs : List Seg) (drops : List (Option (List Nat))) :
     (mergeSegs v m segs drops).2 = remapAll segs drops 0 :=
-  mergeSegs_maps v m segs drops hne
+  mergeSegs_maps v m segs drops
 
 /-- Zero survivors: an empty segment with only the `_id` record (which the
-    reader then does not see), no maps. -/
+    reader then does not see) - and still one map per input (`C05_maps` has no hypothesis; before
+    the repair of defect D15 no map came back in this case, against the property's "also when
+    nothing survives"). -/
 theorem C05_zero (v : Bool) (m : Nat) (segs : List Seg) (drops : List (Option (List Nat)))
     (h0 : newDocCount segs drops = 0) :
     (mergeSegs v m segs drops).1.numDocs = 0 ∧
     (mergeSegs v m segs drops).1.stored = [] ∧
     (mergeSegs v m segs drops).1.fieldNames = [] ∧
     (∀ nm, (mergeSegs v m segs drops).1.dictTerms nm = []) ∧
-    (mergeSegs v m segs drops).2 = [] := by
+    (mergeSegs v m segs drops).2 = remapAll segs drops 0 := by
   have hz := mergeSegs_zero v m segs drops h0
   have h1 : (mergeSegs v m segs drops).1.numDocs = 0 := by rw [hz]
   have h2 : (mergeSegs v m segs drops).1.fields.length ≤ 1 := by rw [hz]; simp [mergedFieldNames]
